@@ -158,3 +158,25 @@ func sortedKeys[V any](mp map[string]V) []string {
 	sort.Strings(out)
 	return out
 }
+
+// UnexpectedForbidden lists the items (attribute extents, block type keywords) that sit directly
+// in a block whose dependent body cannot be resolved because a key attribute is written with an
+// expression that has no static value: nothing may be reported as unexpected there.
+func UnexpectedForbidden(root *m.BodyM, body *hclsyntax.Body) []Region {
+	var out []Region
+	WalkBodies(root, body, func(bc *BodyCtx) {
+		if bc.Block == nil || !bc.Sel.Unresolvable || bc.Body == nil {
+			return
+		}
+		if bc.Parent != nil && (bc.Parent.Undetermined || !bc.Parent.Known) {
+			return
+		}
+		for _, a := range bc.Body.Attributes {
+			out = append(out, Region{a.SrcRange.Start.Byte, a.SrcRange.End.Byte})
+		}
+		for _, b := range bc.Body.Blocks {
+			out = append(out, Region{b.TypeRange.Start.Byte, b.TypeRange.End.Byte})
+		}
+	})
+	return out
+}
